@@ -23,9 +23,12 @@ def cases(ctx):
         if (name.startswith("github") or name.startswith("vega")) and ctx.tier != "thorough": continue
         out.append(("fixture:" + name, doc))
     n = 300 if ctx.tier == "thorough" else 36
+    import corpus
+    for cid, cdoc, _ in corpus.oracle_documents():
+        if cid.startswith(("hand:", "file:")): out.append(("corpus:" + cid, cdoc))
     for k in range(n):
         fs = [gen.DEFAULT_FEATURES, gen.FEATURE_SETS["defaults"], gen.FEATURE_SETS["allof"], gen.FEATURE_SETS["recursive"],
-              gen.FEATURE_SETS["formats"], gen.FEATURE_SETS["maps"]][k % 6]
+              gen.FEATURE_SETS["formats"], gen.FEATURE_SETS["maps"], gen.FEATURE_SETS["unions"]][k % 7]
         out.append(("gen:%d" % k, gen.gen_universe(ctx.rng, 3 + k % 7, set(fs))))
     return out
 
@@ -72,10 +75,11 @@ def attribute(findings, c, key, v, what):
         while e is not None and e["kind"] in ("option", "box", "newtype") and fuel > 0:
             e = es.get(e["id"] if e["kind"] != "newtype" else e["type_id"]); fuel -= 1
         return e
-    def swallows_objects(dt):
+    def swallows_objects(dt, enum_deny=False):
         """a variant that reads ANY object: an open struct (variant) without required members"""
         if not isinstance(dt, dict): return False
         ps = dt.get("struct")
+        if ps is not None and enum_deny: return False      # container-level deny_unknown_fields closes in-line struct variants
         if ps is None and "item" in dt:
             e = through(dt["item"])
             if e is None or e["kind"] != "struct" or e.get("deny"): return False
@@ -102,8 +106,22 @@ def attribute(findings, c, key, v, what):
                 e = es[i]
                 if e["kind"] == "enum" and e["tag"] == "untagged":
                     vs = e["variants"]
-                    if any(swallows_objects(a["details"]) and any(objectlike(b["details"]) for b in vs[k + 1:]) for k, a in enumerate(vs)):
+                    if any(swallows_objects(a["details"], e.get("deny")) and any(objectlike(b["details"]) for b in vs[k + 1:]) for k, a in enumerate(vs)):
                         return fd
+        if fd["id"] == "C03-anyof-flatten-shared-member" and what in ("not-contained", "not-fixed-point", "invalid"):
+            # a struct of flattened Option<struct> members two of which declare a member of the same name
+            for i in reach:
+                e = es[i]
+                if e["kind"] != "struct": continue
+                subs = []
+                for p in e["props"]:
+                    te = es.get(p["type_id"], {})
+                    if p.get("rename") == "flatten" and te.get("kind") == "option":
+                        se = through(te["id"])
+                        if se and se["kind"] == "struct": subs.append({q["name"] if q.get("rename") in (None, "flatten") else q["rename"] for q in se["props"]})
+                if any(subs[a] & subs[b] for a in range(len(subs)) for b in range(a + 1, len(subs))) and isinstance(v, dict) and \
+                   any(sum(1 for sb in subs if m in sb) >= 2 for m in v):
+                    return fd
     return None
 
 def run(ctx):
